@@ -170,6 +170,10 @@ def run_check(tier, seed):
              [['new_theory', 'verif_extra', ['logic_base'], [{"ty": "thm.ax", "name": "verif_extra_ax", "vars": {"A": "bool"}, "prop": "A --> A"}]],
               ['set_imports', 'logic', ['logic_base', 'verif_extra']], ['load_metadata']],
              'imports of an import changed, metadata reloaded'),
+            ('nat', [['load', 'nat', None]],
+             [['new_theory', 'verif_extra3', ['logic_base'], [{"ty": "thm.ax", "name": "verif_extra3_ax", "vars": {"A": "bool"}, "prop": "A --> A"}]],
+              ['set_imports', 'logic', ['logic_base', 'verif_extra3']], ['touch', 'logic']],
+             'imports of an import changed on disk (no explicit reload of anything)'),
             ('function', [['load', 'function', None]],
              [['new_theory', 'verif_extra2', ['logic_base'], [{"ty": "thm.ax", "name": "verif_extra2_ax", "vars": {"A": "bool"}, "prop": "A --> A"}]],
               ['set_imports', 'nat', ['logic', 'verif_extra2']], ['touch', 'nat'], ['load_metadata']],
@@ -177,7 +181,7 @@ def run_check(tier, seed):
             ('nat', [['load', 'nat', None]], [['append_item', 'logic', ax(9), 'older']], 'import replaced by a different, older-dated version'),
         ]
         if tier == 'quick':
-            mut_specs = mut_specs[:3] + [m_ for m_ in mut_specs[3:] if 'metadata' in m_[3]][:1] + r.sample([m_ for m_ in mut_specs[3:] if 'metadata' not in m_[3]], 3)
+            mut_specs = mut_specs[:3] + [m_ for m_ in mut_specs[3:] if 'imports of an import' in m_[3]][:2] + r.sample([m_ for m_ in mut_specs[3:] if 'imports of an import' not in m_[3]], 2)
         mut_dirs, mut_jobs = [], []
         for target, pre, change, descr in mut_specs:
             pair = []
